@@ -431,7 +431,7 @@ package yqlib
 //@   ensures result != nil && fresh(result) && result.Parent == n && result.Key == nil && len(result.Content) == 0
 
 //@ func traverseMap
-//@   props C08 C02 C07
+//@   props C08
 //@   flags docframe-only
 //@   requires matchingNode != nil && keyNode != nil
 //@   readonly-if context.DontAutoCreate || prefs.DontAutoCreate || splat
